@@ -4,6 +4,7 @@ import DynasmVerif.Drv.Fold
 import DynasmVerif.Drv.A64Imm
 import DynasmVerif.Drv.RvExec
 import DynasmVerif.Drv.X64Mem
+import DynasmVerif.Drv.A64Enc
 
 /-! Line-protocol driver: reads request lines on stdin, answers each with one `= …` line.
 The first line `hdr <stream> …` selects the stream. The harness output (requests interleaved with its own
@@ -29,6 +30,7 @@ def exec (st : DState) (req hint : String) : DState × String :=
     | "a64imm" => (st, Drv.A64Imm.handle ws)
     | "rvexec" => (st, Drv.RvExec.handle ws)
     | "x64mem" => (st, Drv.X64Mem.handle ws)
+    | "a64enc" => (st, Drv.A64Enc.handle ws)
     | "asm" =>
       match ws with
       | ["reset"] => ({ st with asm := {} }, "= ok")
